@@ -529,6 +529,12 @@ func init() {
 func flushFault(rep *ev.Reporter, seed int64, obs map[string]int, forC08 bool) {
 	signal.Ignore(syscall.SIGXFSZ)
 	defer signal.Reset(syscall.SIGXFSZ)
+	var dirs []string
+	defer func() {
+		for _, d := range dirs {
+			os.RemoveAll(d)
+		}
+	}()
 	for k, variant := range []gohlslib.MuxerVariant{gohlslib.MuxerVariantMPEGTS, gohlslib.MuxerVariantFMP4, gohlslib.MuxerVariantLowLatency} {
 		ref := map[string]any{"property": "C07", "flush_fault": k, "seed": seed}
 		dir, err := os.MkdirTemp("", "c07ff")
@@ -536,6 +542,7 @@ func flushFault(rep *ev.Reporter, seed int64, obs map[string]int, forC08 bool) {
 			fmt.Println("HARNESS: C07 flush fault:", err)
 			return
 		}
+		dirs = append(dirs, dir)
 		tr := &gohlslib.Track{Codec: &codecs.H264{SPS: media.H264SPSVectors[0], PPS: media.H264PPS[0]}, ClockRate: 90000}
 		segCount := 3
 		if variant == gohlslib.MuxerVariantLowLatency {
